@@ -40,6 +40,7 @@ PI = math.pi
 PKG = os.path.join(REPO, "packages") + os.sep
 
 K_NONPOS = "nonpositive-concurrency-drops-inputs"
+K_ONESHOT = "general-estimator.one-shot-params-drop-first"
 
 TRUSTED = [
     "Lean 4.33 kernel; axioms audited ⊆ {propext, Classical.choice, Quot.sound}",
@@ -93,8 +94,27 @@ def build_state(d):
     return QuantumStateVector(d["q"], v, circ)
 
 
+def _flip_after(bits, g):
+    """BitFlipNoise(1.0) of a NoiseModel: after every gate an X on every qubit the gate acts on (deterministic)"""
+    if g[0] == "PPR":
+        qs = [q for q, _ in g[1]]
+    elif g[0] in ("PRX", "PRY", "PRZ"):
+        qs = [g[1]]
+    else:
+        qs = list(g[1:])
+    for q in qs:
+        bits ^= 1 << q
+    return bits
+
+
 def state_bits(d):
-    return c11ref.run_classical(d.get("init") or 0, [tuple(g) for g in d["gates"]])
+    gs = [tuple(g) for g in d["gates"]]
+    b = d.get("init") or 0
+    if d.get("noise") != "bitflip1":
+        return c11ref.run_classical(b, gs)
+    for g in gs:
+        b = _flip_after(c11ref.run_classical(b, [g]), g)
+    return b
 
 
 _PN = {1: "X", 2: "Y", 3: "Z"}
@@ -158,18 +178,30 @@ def build_pstate(d):
         else:
             raise InfraError(f"unknown parametric gate {g}")
     comp = d.get("compiled", False)
+
+    def mk(circ):
+        if d.get("init") is None:
+            return ParametricCircuitQuantumState(q, circ)
+        import numpy as np
+
+        from quri_parts.core.state import ParametricQuantumStateVector
+
+        v = np.zeros(2**q, dtype=complex)
+        v[d["init"]] = 1.0
+        return ParametricQuantumStateVector(q, circ, v)
+
     if comp:
         from quri_parts.qulacs.circuit.compiled_circuit import compile_parametric_circuit
 
         cpc = compile_parametric_circuit(pc)
-        st = ParametricCircuitQuantumState(q, cpc)
+        st = mk(cpc)
         if comp == "forced":
             # ParametricCircuitQuantumState freezes an unbound compiled circuit back into a plain immutable one;
             # the branch of `_sequential_parametric_estimate` for `_QulacsUnboundParametricCircuit` is reached
             # only when the state hands the compiled object through.
             st._circuit = cpc
         return st
-    return ParametricCircuitQuantumState(q, pc)
+    return mk(pc)
 
 
 def pstate_bits(d, params_pi):
@@ -181,7 +213,12 @@ def pstate_bits(d, params_pi):
             gs.append(("PPR", [tuple(x) for x in g[1]], {int(i): int(c) for i, c in g[2].items()}))
         else:
             gs.append(tuple(g))
-    return c11ref.run_parametric(0, gs, params_pi)
+    b = d.get("init") or 0
+    if d.get("noise") != "bitflip1":
+        return c11ref.run_parametric(b, gs, params_pi)
+    for g in gs:
+        b = _flip_after(c11ref.run_parametric(b, [g], params_pi), g)
+    return b
 
 
 # ---------------------------------------------------------------------------
@@ -205,15 +242,18 @@ def gen_gates(rng, q, length, clifford_only=False):
     return out
 
 
-def gen_state(rng, q, want_bits=None, compiled_ok=True, vector_ok=True, clifford_only=False, force=None):
-    """a state description whose final basis state is `want_bits` when given"""
+def gen_state(rng, q, want_bits=None, compiled_ok=True, vector_ok=True, clifford_only=False, force=None, noise=None):
+    """a state description whose final basis state is `want_bits` when given (under the noise model `noise`)"""
     gates = gen_gates(rng, q, rng.randint(0, 5), clifford_only)
     init = rng.randrange(2**q) if (vector_ok and (rng.random() < 0.25 or force == "vector")) else None
     d = {"q": q, "gates": gates, "init": init,
          "compiled": bool(compiled_ok and (rng.random() < 0.35 or force == "compiled"))}
+    if noise == "bitflip1":
+        d["noise"] = noise
     if want_bits is not None:
         cur = state_bits(d)
-        fix = [("X", i) for i in range(q) if ((cur ^ want_bits) >> i) & 1]
+        # under bitflip1 an X gate is undone by its own noise; a Z gate is what flips the bit
+        fix = [("Z" if noise == "bitflip1" else "X", i) for i in range(q) if ((cur ^ want_bits) >> i) & 1]
         rng.shuffle(fix)
         d["gates"] = gates + fix
     return d
@@ -226,9 +266,17 @@ def gen_label(rng, q, z_only=False):
 
 
 def gen_operator(rng, q, tag):
-    """operator whose expectation on any basis state identifies `tag` (identity coefficient 64*tag)"""
-    if rng.random() < 0.08:
+    """operator whose expectation on any basis state identifies `tag` (identity coefficient 64*tag); a few
+    degenerate forms: bare label, bare identity label, the zero operator, a zero-coefficient term"""
+    r = rng.random()
+    if r < 0.08:
         return {"label": gen_label(rng, q)}
+    if r < 0.11:
+        return {"label": []}
+    if r < 0.17:
+        return {"terms": []}
+    if r < 0.20:
+        return {"terms": [(0, gen_label(rng, q))]}
     terms, seen = [], set()
     for _ in range(rng.randint(0, 4)):
         lab = gen_label(rng, q)
@@ -252,7 +300,18 @@ def distinct_bits(rng, q, n):
     return [pool[i % len(pool)] for i in range(n)]
 
 
-def gen_pstate(rng, q, kind=None, compiled=None):
+def gen_pstate(rng, q, kind=None, compiled=None, vector=None, noise=None):
+    d = _gen_pstate(rng, q, kind, compiled)
+    if vector is None:
+        vector = rng.random() < 0.3
+    if vector:
+        d["init"] = rng.randrange(2**q)
+    if noise == "bitflip1":
+        d["noise"] = noise
+    return d
+
+
+def _gen_pstate(rng, q, kind=None, compiled=None):
     kind = kind or rng.choice(["unbound", "linear"])
     gates, npar = [], 0
     if kind == "unbound":
@@ -298,7 +357,8 @@ def gen_params(rng, npar, n):
 def canon_value(v):
     z = complex(v)
     re, im = round(z.real), round(z.imag)
-    if abs(z.real - re) > 1e-6 or abs(z.imag - im) > 1e-6:
+    tol = 1e-6 * max(1.0, abs(z))  # relative for the 2**31-shot ideal counts (probability * shots in floating point)
+    if abs(z.real - re) > tol or abs(z.imag - im) > tol:
         return ("non-integer", repr(z))
     return (re, im)
 
@@ -310,7 +370,8 @@ def canon_estimates(rs):
 def canon_counts(rs):
     out = []
     for c in rs:
-        out.append(tuple(sorted((int(k), canon_value(v)) for k, v in dict(c).items() if v != 0)))
+        # ideal samplers list every outcome; probabilities of 0 (or 1e-32 from a rotation by pi) are no counts
+        out.append(tuple(sorted((int(k), canon_value(v)) for k, v in dict(c).items() if canon_value(v) != (0, 0))))
     return out
 
 
@@ -329,6 +390,17 @@ class InlineExecutor:
     def map(self, fn, *iterables):
         calls = list(zip(*iterables))
         self.submitted.append((fn, calls))
+        if self.order == "lazy":
+            # results are produced only when the caller consumes them (a generator, still in input order)
+            def lazy():
+                for i, a in enumerate(calls):
+                    if self.hook:
+                        self.hook(i)
+                    yield fn(*a)
+                if self.hook:
+                    self.hook(None)
+
+            return lazy()
         idx = list(range(len(calls)))
         if self.order == "rev":
             idx.reverse()
@@ -533,22 +605,104 @@ def executor_kind(spec):
 def _noise_model(kind):
     from quri_parts.circuit.noise import BitFlipNoise, NoiseModel
 
-    return NoiseModel() if kind == "empty" else NoiseModel([BitFlipNoise(0.0)])
+    if kind == "empty":
+        return NoiseModel()
+    return NoiseModel([BitFlipNoise(1.0 if kind == "bitflip1" else 0.0)])
+
+
+NOISES = ["empty", "bitflip0", "bitflip1", "bitflip1"]
 
 
 class EP:
     """one concurrent entry point + one call shape"""
 
-    def __init__(self, name, gen, call, expected, per_input=None, combine=None, min_n=0, variants=1):
+    def __init__(self, name, gen, call, expected, per_input=None, combine=None, min_n=0, variants=1, single=None):
         self.name, self.call, self.expected = name, call, expected
         self._gen = gen
         self.variants = variants  # variant 0 = random mix; 1.. = forced input kinds (compiled, vector, ...)
         self.per_input = per_input  # sequential per-input results for combine-type entry points
         self.combine = combine
         self.min_n = min_n
+        # single(b) -> {reference name: [canonical per-input result]} obtained from the plain, non-concurrent public
+        # entry points (one call per input, fresh objects)
+        self.single = single
 
     def gen(self, rng, n, variant=0):
-        return self._gen(rng, n, variant % self.variants)
+        b = self._gen(rng, n, variant % self.variants)
+        if rng.random() < 0.25:
+            _repeat_inputs(b, rng)
+        return b
+
+
+def _repeat_inputs(b, rng):
+    """the same input more than once in a batch: as equal objects, or (b['alias']) as the very same object"""
+    for k in ("items", "params", "states", "ops"):
+        xs = b.get(k)
+        if isinstance(xs, list) and len(xs) >= 2:
+            i, j = rng.sample(range(len(xs)), 2)
+            if k == "items":
+                xs[j] = {**xs[i], "shots": xs[j]["shots"]} if rng.random() < 0.5 else dict(xs[i])
+            else:
+                xs[j] = xs[i]
+            if k in ("items", "params"):
+                break
+    if "kets" in b and len(b["kets"]) >= 2:
+        i, j = rng.sample(range(len(b["kets"])), 2)
+        b["kets"][j], b["bras"][j] = b["kets"][i], b["bras"][i]
+    b["alias"] = rng.random() < 0.5
+
+
+def _call_memo(b, memo):
+    return {} if (memo is None and b.get("alias")) else memo
+
+
+def _fargs(ex, c):
+    """concurrency None = the caller leaves the argument out (documented default 1)"""
+    return (ex,) if c is None else (ex, c)
+
+
+def _memo(memo, key, thunk):
+    """history runs hand a dict through `call`: the callable under test and the built input objects are then
+    created once and used again by later calls"""
+    if memo is None:
+        return thunk()
+    if key not in memo:
+        memo[key] = thunk()
+    return memo[key]
+
+
+def _built(memo, kind, desc, builder):
+    if memo is None:
+        return builder(desc)
+    return _memo(memo, (kind, json.dumps(desc, sort_keys=True, default=str)), lambda: builder(desc))
+
+
+def _seq(xs, form):
+    """the caller's container: list | tuple | iter (one-shot iterator)"""
+    xs = list(xs)
+    if form == "tuple":
+        return tuple(xs)
+    if form == "iter":
+        return (x for x in xs)
+    return xs
+
+
+def _params(b):
+    """parameter batch in the caller's argument form (b['form']): list of lists | tuple of tuples | 2-d numpy array |
+    list of numpy rows | one-shot iterator; b['int0']: a zero angle is the int 0, not the float 0.0"""
+    import numpy as np
+
+    form = b.get("form", "list")
+    rows = [[(k * PI if (k or not b.get("int0")) else 0) for k in p] for p in b["params"]]
+    if form == "tuple":
+        return tuple(tuple(r) for r in rows)
+    if form == "ndarray":
+        return np.array(rows, dtype=float).reshape(len(rows), len(rows[0]) if rows else 0)
+    if form == "ndrows":
+        return [np.array(r, dtype=float) for r in rows]
+    if form == "iter":
+        return (r for r in rows)
+    return rows
 
 
 def _est_family(fam, noise="bitflip0"):
@@ -556,46 +710,73 @@ def _est_family(fam, noise="bitflip0"):
     if fam == "qulacs.vector":
         from quri_parts.qulacs.estimator import create_qulacs_vector_concurrent_estimator as f
 
-        return f
+        return lambda ex, c: f(*_fargs(ex, c))
     if fam == "qulacs.dm":
         from quri_parts.qulacs.estimator import create_qulacs_density_matrix_concurrent_estimator as f
 
-        return lambda ex, c: f(_noise_model(noise), ex, c)
+        return lambda ex, c: f(_noise_model(noise), *_fargs(ex, c))
     if fam == "qulacs.general_vector":
         from quri_parts.qulacs.estimator import create_qulacs_general_vector_estimator as f
 
-        return f
+        return lambda ex, c: f(*_fargs(ex, c))
     if fam == "qulacs.general_dm":
         from quri_parts.qulacs.estimator import create_qulacs_general_density_matrix_estimator as f
 
-        return lambda ex, c: f(_noise_model(noise), ex, c)
+        return lambda ex, c: f(_noise_model(noise), *_fargs(ex, c))
     if fam == "stim":
         from quri_parts.stim.estimator import create_stim_clifford_concurrent_estimator as f
 
-        return f
+        return lambda ex, c: f(*_fargs(ex, c))
     raise InfraError(fam)
+
+
+def _plain_estimator(fam, noise):
+    """the plain one-operator-one-state entry point of the same family"""
+    import quri_parts.qulacs.estimator as E
+
+    if fam == "qulacs.vector":
+        return E.create_qulacs_vector_estimator()
+    if fam == "qulacs.dm":
+        return E.create_qulacs_density_matrix_estimator(_noise_model(noise))
+    if fam == "qulacs.general_vector":
+        return E.create_qulacs_general_vector_estimator()  # called as general(op, state)
+    if fam == "qulacs.general_dm":
+        return E.create_qulacs_general_density_matrix_estimator(_noise_model(noise))
+    from quri_parts.stim.estimator import create_stim_clifford_estimator
+
+    return create_stim_clifford_estimator()
 
 
 def _mk_est_ep(fam, shape):
     general = fam.startswith("qulacs.general")
     stim = fam == "stim"
+    noisy = fam in ("qulacs.dm", "qulacs.general_dm")
 
     def gen(rng, n, variant=0):
         q = rng.randint(1, 4)
-        kw = dict(compiled_ok=not stim, vector_ok=not stim, clifford_only=stim, force=(None, "compiled", "vector")[variant])
+        noise = rng.choice(NOISES) if noisy else None
+        kw = dict(compiled_ok=not stim, vector_ok=not stim, clifford_only=stim, force=(None, "compiled", "vector")[variant],
+                  noise=noise)
+        b = {"q": q}
         if shape == "ops-state":
-            return {"q": q, "ops": [gen_operator(rng, q, i) for i in range(n)], "states": [gen_state(rng, q, None, **kw)]}
-        if shape == "op-states":
+            b.update(ops=[gen_operator(rng, q, i) for i in range(n)], states=[gen_state(rng, q, None, **kw)])
+        elif shape == "op-states":
             bits = distinct_bits(rng, q, n)
-            return {"q": q, "ops": [bit_reader(q)], "states": [gen_state(rng, q, b, **kw) for b in bits]}
-        bits = distinct_bits(rng, q, n)
-        return {"q": q, "ops": [gen_operator(rng, q, i) for i in range(n)],
-                "states": [gen_state(rng, q, b, **kw) for b in bits]}
+            b.update(ops=[bit_reader(q)], states=[gen_state(rng, q, x, **kw) for x in bits])
+        else:
+            bits = distinct_bits(rng, q, n)
+            b.update(ops=[gen_operator(rng, q, i) for i in range(n)], states=[gen_state(rng, q, x, **kw) for x in bits])
+        if noisy:
+            b["noise"] = noise
+        b["form"] = rng.choice(["list", "list", "tuple"])
+        return b
 
-    def call(b, ex, c):
-        ops = [build_operator(o) for o in b["ops"]]
-        sts = [build_state(s) for s in b["states"]]
-        est = _est_family(fam)(ex, c)
+    def call(b, ex, c, memo=None):
+        memo = _call_memo(b, memo)
+        form = b.get("form", "list")
+        ops = _seq([_built(memo, "op", o, build_operator) for o in b["ops"]], form)
+        sts = _seq([_built(memo, "state", s, build_state) for s in b["states"]], form)
+        est = _memo(memo, "callable", lambda: _est_family(fam, b.get("noise", "bitflip0"))(ex, c))
         if general:
             if shape == "ops-state":
                 return canon_estimates(est(ops, sts[0]))
@@ -603,121 +784,198 @@ def _mk_est_ep(fam, shape):
                 return canon_estimates(est(ops[0], sts))
         return canon_estimates(est(ops, sts))
 
-    def expected(b):
+    def pairs(b):
         ops, sts = b["ops"], b["states"]
-        n = max(len(ops), len(sts))
-        out = []
-        for i in range(n):
-            o = ops[i if len(ops) > 1 else 0]
-            s = sts[i if len(sts) > 1 else 0]
-            out.append((c11ref.expectation(op_terms(o), state_bits(s)), 0))
-        return out
+        n = max(len(ops), len(sts)) if ops and sts else 0
+        return [(ops[i if len(ops) > 1 else 0], sts[i if len(sts) > 1 else 0]) for i in range(n)]
 
-    return EP(f"{fam}:{shape}", gen, call, expected, min_n=1, variants=1 if stim else 3)
+    def expected(b):
+        return [(c11ref.expectation(op_terms(o), state_bits(s)), 0) for o, s in pairs(b)]
+
+    def single(b):
+        est = _plain_estimator(fam, b.get("noise", "bitflip0"))
+        return {"plain": [canon_value(est(build_operator(o), build_state(s)).value) for o, s in pairs(b)]}
+
+    return EP(f"{fam}:{shape}", gen, call, expected, min_n=1, variants=1 if stim else 3, single=single)
 
 
 def _mk_param_ep(fam):
-    def factory(ex, c):
+    general = fam.startswith("qulacs.general")
+    noisy = "dm" in fam
+
+    def factory(ex, c, noise="bitflip0"):
         import quri_parts.qulacs.estimator as E
 
         if fam == "qulacs.vector.parametric":
-            return E.create_qulacs_vector_concurrent_parametric_estimator(ex, c)
+            return E.create_qulacs_vector_concurrent_parametric_estimator(*_fargs(ex, c))
         if fam == "qulacs.dm.parametric":
-            return E.create_qulacs_density_matrix_concurrent_parametric_estimator(_noise_model("bitflip0"), ex, c)
+            return E.create_qulacs_density_matrix_concurrent_parametric_estimator(_noise_model(noise), *_fargs(ex, c))
         if fam == "qulacs.general_vector.parametric":
-            return E.create_qulacs_general_vector_estimator(ex, c)
-        return E.create_qulacs_general_density_matrix_estimator(_noise_model("bitflip0"), ex, c)
+            return E.create_qulacs_general_vector_estimator(*_fargs(ex, c))
+        return E.create_qulacs_general_density_matrix_estimator(_noise_model(noise), *_fargs(ex, c))
 
     PV = [None, ("unbound", False), ("unbound", True), ("linear", False), ("linear", True), ("unbound", "forced")]
 
     def gen(rng, n, variant=0):
         q = rng.randint(1, 4)
-        ps = gen_pstate(rng, q) if not variant else gen_pstate(rng, q, PV[variant][0], PV[variant][1])
+        noise = rng.choice(NOISES) if noisy else None
+        ps = gen_pstate(rng, q, noise=noise) if not variant else gen_pstate(rng, q, PV[variant][0], PV[variant][1], noise=noise)
         if fam != "qulacs.vector.parametric" and ps["compiled"] == "forced":
             ps["compiled"] = False
-        return {"q": q, "op": bit_reader(q), "pstate": ps, "params": gen_params(rng, ps["nparams"], n)}
+        b = {"q": q, "op": bit_reader(q), "pstate": ps, "params": gen_params(rng, ps["nparams"], n)}
+        if noisy:
+            b["noise"] = noise
+        # a one-shot iterator is a documented argument form of execute_concurrently only; the general estimator loses
+        # the first element of one (known finding, replayed separately)
+        b["form"] = rng.choice(["list", "list", "tuple", "ndarray", "ndrows"])
+        b["int0"] = rng.random() < 0.3
+        return b
 
-    def call(b, ex, c):
-        est = factory(ex, c)
-        params = [[k * PI for k in p] for p in b["params"]]
-        if fam.startswith("qulacs.general") and not params:
+    def call(b, ex, c, memo=None):
+        memo = _call_memo(b, memo)
+        est = _memo(memo, "callable", lambda: factory(ex, c, b.get("noise", "bitflip0")))
+        params = _params(b)
+        op = _built(memo, "op", b["op"], build_operator)
+        ps = _built(memo, "pstate", b["pstate"], build_pstate)
+        if general and not len(b["params"]):
             # GeneralQuantumEstimator inspects next(iter(param)); an empty batch has no concurrent call shape
-            return canon_estimates(est.concurrent_parametric_estimator(build_operator(b["op"]), build_pstate(b["pstate"]), params))
-        return canon_estimates(est(build_operator(b["op"]), build_pstate(b["pstate"]), params))
+            return canon_estimates(est.concurrent_parametric_estimator(op, ps, params))
+        return canon_estimates(est(op, ps, params))
 
     def expected(b):
         return [(c11ref.expectation(op_terms(b["op"]), pstate_bits(b["pstate"], p)), 0) for p in b["params"]]
 
-    return EP(fam, gen, call, expected, variants=6 if fam == "qulacs.vector.parametric" else 5)
+    def single(b):
+        import quri_parts.qulacs.estimator as E
+
+        noise = b.get("noise", "bitflip0")
+        if fam == "qulacs.vector.parametric":
+            est = E.create_qulacs_vector_parametric_estimator()
+        elif fam == "qulacs.dm.parametric":
+            est = E.create_qulacs_density_matrix_parametric_estimator(_noise_model(noise))
+        else:
+            est = factory(None, 1, noise)  # called as general(op, pstate, one parameter set)
+        rows = _params({**b, "form": "list"})
+        op, ps = build_operator(b["op"]), build_pstate(b["pstate"])
+        out = []
+        for r in rows:
+            if general and len(r) == 0:
+                return {}
+            out.append(canon_value(est(op, ps, r).value))
+        return {"plain": out}
+
+    return EP(fam, gen, call, expected, variants=6 if fam == "qulacs.vector.parametric" else 5, single=single)
 
 
 def _mk_sampler_ep(fam):
+    noisy = fam in ("sampler.dm", "sampler.stochastic", "sampler.noisesim")
+
     def factory(ex, c, noise):
         import quri_parts.qulacs.sampler as S
         import quri_parts.qulacs.simulator as M
 
         if fam == "sampler.vector":
-            return S.create_qulacs_vector_concurrent_sampler(ex, c)
+            return S.create_qulacs_vector_concurrent_sampler(*_fargs(ex, c))
         if fam == "sampler.dm":
-            return S.create_qulacs_density_matrix_concurrent_sampler(_noise_model(noise), ex, c)
+            return S.create_qulacs_density_matrix_concurrent_sampler(_noise_model(noise), *_fargs(ex, c))
         if fam == "sampler.stochastic":
-            return S.create_qulacs_stochastic_state_vector_concurrent_sampler(_noise_model(noise), ex, c)
+            return S.create_qulacs_stochastic_state_vector_concurrent_sampler(_noise_model(noise), *_fargs(ex, c))
         if fam == "sampler.noisesim":
-            return S.create_qulacs_noisesimulator_concurrent_sampler(_noise_model(noise), ex, c)
-        return M.create_concurrent_vector_state_sampler(ex, c)
+            return S.create_qulacs_noisesimulator_concurrent_sampler(_noise_model(noise), *_fargs(ex, c))
+        return M.create_concurrent_vector_state_sampler(*_fargs(ex, c))
 
     def gen(rng, n, variant=0):
         q = rng.randint(1, 4)
         bits = distinct_bits(rng, q, n)
         big = fam in ("sampler.vector", "sampler.dm", "simulator.state_sampler")
         force = (None, "compiled", "vector")[variant]
+        noise = rng.choice(NOISES) if noisy else rng.choice(["empty", "bitflip0"])
         items = []
-        for i, b in enumerate(bits):
-            shots = 3 + i if not (big and rng.random() < 0.15) else 1500 + i
+        for i, x in enumerate(bits):
+            shots = 3 + i if not (big and rng.random() < 0.15) else rng.choice([1500, 1500, 2**31]) + i
             if fam == "simulator.state_sampler":
-                items.append({"state": gen_state(rng, q, b, force=force), "shots": shots})
+                items.append({"state": gen_state(rng, q, x, force=force), "shots": shots})
             else:
-                st = gen_state(rng, q, b, vector_ok=False, compiled_ok=(fam == "sampler.vector"), force=force)
+                st = gen_state(rng, q, x, vector_ok=False, compiled_ok=(fam == "sampler.vector"), force=force,
+                               noise=noise if noisy else None)
                 items.append({"state": st, "shots": shots})
-        return {"q": q, "items": items, "noise": rng.choice(["empty", "bitflip0"])}
+        return {"q": q, "items": items, "noise": noise, "form": rng.choice(["list", "list", "tuple", "iter"])}
 
-    def call(b, ex, c):
-        smp = factory(ex, c, b["noise"])
+    def build_circ(st):
+        return build_circuit(st["q"], st["gates"], st.get("compiled", False))
+
+    def build_item(memo, it):
+        if "bad" in it:
+            # malformed input: a parametric state where a circuit / a bound state is expected
+            return (build_pstate(it["bad"]), it["shots"])
         if fam == "simulator.state_sampler":
-            arg = [(build_state(it["state"]), it["shots"]) for it in b["items"]]
-        else:
-            arg = [(build_circuit(it["state"]["q"], it["state"]["gates"], it["state"].get("compiled", False)), it["shots"])
-                   for it in b["items"]]
+            return (_built(memo, "state", it["state"], build_state), it["shots"])
+        return (_built(memo, "circuit", it["state"], build_circ), it["shots"])
+
+    def call(b, ex, c, memo=None):
+        memo = _call_memo(b, memo)
+        smp = _memo(memo, "callable", lambda: factory(ex, c, b["noise"]))
+        arg = _seq([build_item(memo, it) for it in b["items"]], b.get("form", "list"))
         return canon_counts(smp(arg))
 
     def expected(b):
-        return [((state_bits(it["state"]), (it["shots"], 0)),) for it in b["items"]]
+        return [((state_bits(it["state"]), (it["shots"], 0)),) if "state" in it else ("malformed input accepted",)
+                for it in b["items"]]
 
-    return EP(fam, gen, call, expected, variants={"simulator.state_sampler": 3, "sampler.vector": 2}.get(fam, 1))
+    def single(b):
+        import quri_parts.qulacs.sampler as S
+        import quri_parts.qulacs.simulator as M
+
+        nm = b["noise"]
+        if fam == "sampler.vector":
+            refs = {"plain": S.create_qulacs_vector_sampler(), "ideal": S.create_qulacs_vector_ideal_sampler()}
+        elif fam == "sampler.dm":
+            refs = {"plain": S.create_qulacs_density_matrix_sampler(_noise_model(nm)),
+                    "ideal": S.create_qulacs_density_matrix_ideal_sampler(_noise_model(nm))}
+        elif fam == "sampler.stochastic":
+            refs = {"plain": S.create_qulacs_stochastic_state_vector_sampler(_noise_model(nm))}
+        elif fam == "sampler.noisesim":
+            refs = {"plain": S.create_qulacs_noisesimulator_sampler(_noise_model(nm))}
+        else:
+            refs = {"plain": M.create_qulacs_vector_state_sampler(), "ideal": M.create_qulacs_ideal_vector_state_sampler()}
+        if any("bad" in it for it in b["items"]):
+            return {}
+        return {k: canon_counts([f(*build_item(None, it)) for it in b["items"]]) for k, f in refs.items()}
+
+    return EP(fam, gen, call, expected, variants={"simulator.state_sampler": 3, "sampler.vector": 2}.get(fam, 1), single=single)
 
 
 def _mk_overlap_ep(parametric):
     def gen(rng, n, variant=0):
         q = rng.randint(1, 3)
+        form = rng.choice(["list", "list", "tuple"])
         if parametric:
             ps1, ps2 = gen_pstate(rng, q, compiled=False), gen_pstate(rng, q, compiled=False)
             return {"q": q, "ket": ps1, "bra": ps2, "kparams": gen_params(rng, ps1["nparams"], n),
-                    "bparams": gen_params(rng, ps2["nparams"], n), "weights": [2**i for i in range(n)]}
+                    "bparams": gen_params(rng, ps2["nparams"], n), "weights": [2**i for i in range(n)], "form": form}
         kb = [rng.randrange(2**q) for _ in range(n)]
         bb = [k if rng.random() < 0.5 else rng.randrange(2**q) for k in kb]
-        return {"q": q, "kets": [gen_state(rng, q, b, compiled_ok=False) for b in kb],
-                "bras": [gen_state(rng, q, b, compiled_ok=False) for b in bb], "weights": [2**i for i in range(n)]}
+        return {"q": q, "kets": [gen_state(rng, q, x, compiled_ok=False) for x in kb],
+                "bras": [gen_state(rng, q, x, compiled_ok=False) for x in bb], "weights": [2**i for i in range(n)], "form": form}
 
-    def call(b, ex, c):
+    def call(b, ex, c, memo=None):
         import quri_parts.qulacs.overlap_estimator as O
 
-        est = O.create_qulacs_vector_overlap_weighted_sum_estimator(ex, c)
+        memo = _call_memo(b, memo)
+        form = b.get("form", "list")
+
+        def mk():
+            est = O.create_qulacs_vector_overlap_weighted_sum_estimator(*_fargs(ex, c))
+            return O.create_qulacs_vector_parametric_overlap_weighted_sum_estimator(est) if parametric else est
+
+        est = _memo(memo, "callable", mk)
+        w = _seq(b["weights"], form)
         if parametric:
-            pest = O.create_qulacs_vector_parametric_overlap_weighted_sum_estimator(est)
-            r = pest((build_pstate(b["ket"]), [[k * PI for k in p] for p in b["kparams"]]),
-                     (build_pstate(b["bra"]), [[k * PI for k in p] for p in b["bparams"]]), b["weights"])
+            r = est((_built(memo, "pstate", b["ket"], build_pstate), _seq([[k * PI for k in p] for p in b["kparams"]], form)),
+                    (_built(memo, "pstate", b["bra"], build_pstate), _seq([[k * PI for k in p] for p in b["bparams"]], form)), w)
         else:
-            r = est([build_state(s) for s in b["kets"]], [build_state(s) for s in b["bras"]], b["weights"])
+            r = est(_seq([_built(memo, "state", s, build_state) for s in b["kets"]], form),
+                    _seq([_built(memo, "state", s, build_state) for s in b["bras"]], form), w)
         return [canon_value(r.value)]
 
     def pairs(b):
@@ -735,8 +993,20 @@ def _mk_overlap_ep(parametric):
     def expected(b):
         return combine(b, per_input(b))
 
+    def single(b):
+        import quri_parts.qulacs.overlap_estimator as O
+
+        est = O.create_qulacs_vector_overlap_estimator()
+        if parametric:
+            k, r = build_pstate(b["ket"]), build_pstate(b["bra"])
+            prs = [(k.bind_parameters([x * PI for x in p]), r.bind_parameters([x * PI for x in s]))
+                   for p, s in zip(b["kparams"], b["bparams"])]
+        else:
+            prs = [(build_state(k), build_state(r)) for k, r in zip(b["kets"], b["bras"])]
+        return {"plain": [canon_value(est(k, r).value) for k, r in prs]}
+
     return EP("overlap.parametric_weighted_sum" if parametric else "overlap.weighted_sum", gen, call, expected,
-              per_input=per_input, combine=combine)
+              per_input=per_input, combine=combine, single=single)
 
 
 def all_eps():
@@ -802,6 +1072,9 @@ def shippability(ep, b, c):
             except Exception as e:  # noqa: BLE001
                 msg = str(e)
                 m = re.search(r"local object '([^']+)'", msg)
+                if m and m.group(1).endswith(".param_mapper"):
+                    # an input, not the worker: the closure a compiled parametric circuit keeps as its parameter mapper
+                    return False, "procpool.unpicklable-input:compiled-parametric-circuit-param-mapper"
                 if m:
                     return False, f"procpool.unpicklable-worker:{m.group(1)}"
                 if "_QulacsCircuit" in msg:
@@ -819,6 +1092,45 @@ def _tag_worker(common, xs):
     return [(common, x) for x in xs]
 
 
+def _tag_worker_gen(common, xs):
+    """documented worker type: returns any Iterable"""
+    return ((common, x) for x in xs)
+
+
+def _tag_worker_tuple(common, xs):
+    return tuple((common, x) for x in xs)
+
+
+_tag_worker_list = _tag_worker
+
+
+def k1_defaults(ctx: Ctx):
+    """executor / concurrency left out: sequential; executor only: one chunk holding everything (default concurrency 1)"""
+    from quri_parts.core.utils.concurrent import execute_concurrently
+
+    for n in (0, 1, 2, 7):
+        xs = list(range(n))
+        want = [("K", x) for x in xs]
+        rec = InlineExecutor("fwd")
+        outs = {}
+        for form, thunk in (("fn, common, inputs", lambda: execute_concurrently(_tag_worker, "K", xs)),
+                            ("fn, common, inputs, executor", lambda: execute_concurrently(_tag_worker, "K", xs, rec)),
+                            ("keywords", lambda: execute_concurrently(fn=_tag_worker, common_input="K", individual_inputs=xs,
+                                                                      executor=InlineExecutor("rev"), concurrency=3))):
+            try:
+                outs[form] = list(thunk())
+            except Exception as e:  # noqa: BLE001
+                outs[form] = "raises:" + type(e).__name__
+        chunks = [list(a[1]) for a in rec.submitted[0][1]] if rec.submitted else None
+        ctx.case(("chunk-defaults", n), sample={"n": n, "chunks": str(chunks)})
+        ctx.traces += 1
+        if any(v != want for v in outs.values()) or chunks != [xs]:
+            ctx.witness("execute_concurrently:defaults", "execute_concurrently with its optional arguments left out / given by keyword",
+                        {"n": n, "worker": "lambda k, xs: [(k, x) for x in xs]"},
+                        {"results": {k: str(v)[:200] for k, v in outs.items()}, "expected": str(want)[:200],
+                         "chunks_with_default_concurrency": str(chunks)[:200]})
+
+
 def k1_chunking(ctx: Ctx, extra=()):
     from quri_parts.core.utils.concurrent import execute_concurrently
 
@@ -833,8 +1145,9 @@ def k1_chunking(ctx: Ctx, extra=()):
     for (n, c), r in zip(grid, resp):
         if r == "bad-request":
             raise InfraError(f"driver rejected c11chunks {n} {c}")
-        rec = InlineExecutor("fwd")
+        rec = InlineExecutor(("fwd", "rev", "lazy")[(n + 2 * c) % 3])
         xs = list(range(n))
+        _tag_worker = (_tag_worker_list, _tag_worker_gen, _tag_worker_tuple)[(2 * n + c) % 3]
         try:
             out = execute_concurrently(_tag_worker, "K", iter(xs), rec, c)
             real_chunks = [list(a[1]) for a in rec.submitted[0][1]]
@@ -852,7 +1165,8 @@ def k1_chunking(ctx: Ctx, extra=()):
             ctx.disagree("execute_concurrently-chunking", {"n": n, "c": c}, real[:400], r[:400])
         # property on the real code against the independent oracle
         try:
-            seq = list(execute_concurrently(_tag_worker, "K", xs, None, c))
+            # the inputs are documented as any Iterable: list / tuple / range / one-shot iterator
+            seq = list(execute_concurrently(_tag_worker, "K", (xs, tuple(xs), range(n), iter(xs))[(n + c) % 4], None, c))
         except Exception as e:  # noqa: BLE001
             seq = "raises:" + type(e).__name__
         conc = list(out) if out is not None else real
@@ -893,11 +1207,11 @@ def predict(ctx, items):
     return out
 
 
-def classify_and_report(ctx, ep, b, exspec, c, seq, conc, ship_key, n, extra=None, cold=False):
+def classify_and_report(ctx, ep, b, exspec, c, seq, conc, ship_key, n, extra=None, cold=False, c_in=None):
     """the property on the real code: concurrent outcome == sequential outcome"""
     if conc == seq:
         return None
-    inp = {"entry_point": ep.name, "batch": b, "executor": exspec, "concurrency": c, "cold_cache": cold}
+    inp = {"entry_point": ep.name, "batch": b, "executor": exspec, "concurrency": c if c_in is None else c_in, "cold_cache": cold}
     detail = {"sequential": str(seq)[:400], "concurrent": str(conc)[:400]}
     if extra:
         detail.update(extra)
@@ -918,29 +1232,72 @@ def classify_and_report(ctx, ep, b, exspec, c, seq, conc, ship_key, n, extra=Non
     return key
 
 
+def judge_single(ctx, ep, b, exspec, c, seq, conc):
+    """every result of the batch equals what the plain (one input per call) entry point of the same family returns
+    for that input"""
+    try:
+        refs = ep.single(b)
+    except InfraError:
+        raise
+    except Exception as e:  # noqa: BLE001 — e.g. a renamed plain entry point: a correspondence difference
+        ctx.disagree("plain-entry-point", {"entry_point": ep.name, "batch": b}, f"raises {type(e).__name__}: {e}"[:300],
+                     "one result per input")
+        return
+    want = ep.per_input(b) if ep.per_input else ep.expected(b)
+    for rname, vals in refs.items():
+        ctx.count("plain_reference", f"{ep.name}/{rname}")
+        ctx.traces += 1
+        if vals != want:
+            ctx.disagree("plain-entry-point-vs-oracle", {"entry_point": ep.name, "reference": rname, "batch": b},
+                         str(vals)[:300], str(want)[:300])
+        if ep.combine:
+            continue  # the batch result is a weighted sum: judged through `combine` of the oracle values
+        for label, res, spec in (("sequential path", seq, "none"), ("concurrent path", conc, exspec)):
+            if res[0] != "ok" or res[1] == vals or (c <= 0 and spec != "none"):
+                continue
+            key = f"batch-vs-plain:{ep.name}"
+            seen = ctx.extra.setdefault("witness_keys", {})
+            seen[key] = seen.get(key, 0) + 1
+            if seen[key] <= 3:
+                bad = [i for i, (x, y) in enumerate(zip(res[1], vals)) if x != y] or ["length"]
+                ctx.witness(key, f"{ep.name}: the {label} of the batch entry point returns for input {bad[0]} something else "
+                                 f"than the plain ({rname}) entry point called on that input alone",
+                            {"entry_point": ep.name, "batch": b, "executor": spec, "concurrency": c},
+                            {"batch_result": str(res[1])[:400], "per_input_plain_calls": str(vals)[:400]})
+            break
+
+
 def k2_cases(ctx: Ctx, eps, plan):
     """plan: [(ep name, batch, exspec, c)]"""
     rows = []
     colds = []
     for item in plan:
-        name, b, exspec, c = item[:4]
+        name, b, exspec, c_in = item[:4]
         colds.append(item[4] if len(item) > 4 else None)
         ep = eps[name]
         n = batch_len(ep, b)
         kind = executor_kind(exspec)
         ship, ship_key = (True, None)
+        c = 1 if c_in in ("default", None) else c_in  # the documented default of every create_* function
         if kind == "process":
             ship, ship_key = shippability(ep, b, c)
-        rows.append((ep, b, exspec, c, n, kind, ship, ship_key))
-    preds = predict(ctx, [(kind, c, ship, n) for (_, _, _, c, n, kind, ship, _) in rows])
-    for (ep, b, exspec, c, n, kind, ship, ship_key), pred, cold in zip(rows, preds, colds):
-        (seq, _) = run_ep(ep, b, "none", c)
+        rows.append((ep, b, exspec, c, n, kind, ship, ship_key, c_in))
+    preds = predict(ctx, [(r[5], r[3], r[6], r[4]) for r in rows])
+    for (ep, b, exspec, c, n, kind, ship, ship_key, c_in), pred, cold in zip(rows, preds, colds):
+        c_call = None if c_in in ("default", None) else c
+        (seq, _) = run_ep(ep, b, "none", c_call)
         if cold is None:
             cold = ctx.rng.random() < 0.7
-        (conc, ex) = run_ep(ep, b, exspec, c, ctx.rng, cold=cold)
+        (conc, ex) = run_ep(ep, b, exspec, c_call, ctx.rng, cold=cold)
         ctx.count("cache", "cold" if cold else "warm")
-        ctx.case((ep.name, json.dumps(b, sort_keys=True, default=str), exspec, c), nontrivial=(n >= 2 and c >= 2),
-                 sample={"entry_point": ep.name, "n": n, "concurrency": c, "executor": exspec, "sequential": str(seq)[:160]})
+        ctx.count("concurrency_argument", "left out (default)" if c_call is None else "given")
+        ctx.case((ep.name, json.dumps(b, sort_keys=True, default=str), exspec, c_in), nontrivial=(n >= 2 and c >= 2),
+                 sample={"entry_point": ep.name, "n": n, "concurrency": c_in, "executor": exspec, "sequential": str(seq)[:160]})
+        if c_call is None and isinstance(ex, InlineExecutor) and ex.submitted and len(ex.submitted[-1][1]) != 1:
+            ctx.witness(f"default-concurrency:{ep.name}", f"{ep.name}: created without a concurrency argument (documented default 1) "
+                        f"the batch is submitted as {len(ex.submitted[-1][1])} chunks",
+                        {"entry_point": ep.name, "batch": b, "executor": exspec, "concurrency": "default"},
+                        {"chunks_submitted": len(ex.submitted[-1][1])})
         ctx.traces += 1
         ctx.count("entry_point", ep.name)
         ctx.count("executor", exspec.split(":")[0])
@@ -959,10 +1316,11 @@ def k2_cases(ctx: Ctx, eps, plan):
         if conc[0] == "ok" and not ep.combine and c >= 1 and len(conc[1]) != n and seq[0] == "ok":
             ctx.witness(f"result-count:{ep.name}", f"{ep.name}: {len(conc[1])} results for {n} inputs",
                         {"entry_point": ep.name, "batch": b, "executor": exspec, "concurrency": c}, {"concurrent": str(conc)[:300]})
-        if seq[0] == "ok":
-            pass
-        else:
+        if seq[0] != "ok":
             ctx.count("sequential_raises", seq[1])
+        # (1b) the plain non-concurrent public entry points, one call per input, against the batch and the oracle
+        if seq[0] == "ok" and ep.single:
+            judge_single(ctx, ep, b, exspec, c, seq, conc)
         # (2) model prediction of the concurrent outcome
         if seq[0] == "err":
             model = seq  # argument validation precedes execute_concurrently
@@ -977,7 +1335,7 @@ def k2_cases(ctx: Ctx, eps, plan):
             ctx.disagree("entry-point-vs-model", {"entry_point": ep.name, "batch": b, "executor": exspec, "concurrency": c},
                          str(conc)[:300], str(model)[:300])
         # (3) the property itself on the real code
-        classify_and_report(ctx, ep, b, exspec, c, seq, conc, ship_key, n, cold=cold)
+        classify_and_report(ctx, ep, b, exspec, c, seq, conc, ship_key, n, cold=cold, c_in=c_in)
 
 
 def k2_plan(ctx: Ctx, eps):
@@ -987,13 +1345,13 @@ def k2_plan(ctx: Ctx, eps):
     reps = ctx.n(1, 6)
     for name in names:
         ep = eps[name]
-        for _ in range(reps):
+        for rep in range(reps):
             # batch sizes: 0, 1, fewer than, equal, not divisible
             for n, c in ((0, 2), (1, 3), (2, 5), (4, 2), (5, 3), (7, 4), (rng.randint(2, 9), rng.randint(1, 6))):
-                if n < ep.min_n and rng.random() < 0.5:
-                    continue
+                if n < ep.min_n and rep and rng.random() < 0.5:
+                    continue  # (the first repetition always has the empty batch: documented ValueError branches)
                 b = ep.gen(rng, n)
-                ex = rng.choice(["inline:fwd", "inline:rev", "inline:shuffle", f"sched:{rng.randrange(10**6)}:{rng.choice([1.0, 0.5, 0.2, 0.05])}"])
+                ex = rng.choice(["inline:fwd", "inline:rev", "inline:shuffle", "inline:lazy", f"sched:{rng.randrange(10**6)}:{rng.choice([1.0, 0.5, 0.2, 0.05])}"])
                 plan.append((name, b, ex, c))
         # real pools, nonpositive concurrency, malformed
         b = ep.gen(rng, rng.randint(3, 8))
@@ -1003,6 +1361,14 @@ def k2_plan(ctx: Ctx, eps):
             b["pstate"]["compiled"] = False  # the forced hand-through object is a harness construction
         plan.append((name, b, "procs:2", rng.randint(2, 3)))
         plan.append((name, ep.gen(rng, 3), "inline:fwd", rng.choice([0, -1])))
+        # the concurrency argument left out: one chunk with everything
+        plan.append((name, ep.gen(rng, rng.randint(2, 6)), rng.choice(["inline:fwd", "inline:lazy", "threads:2"]), "default"))
+    # sizes far above the concurrency, concurrency far above the usual
+    for name in ("qulacs.vector:paired", "qulacs.dm:ops-state", "stim:op-states", "qulacs.vector.parametric", "qulacs.dm.parametric",
+                 "sampler.vector", "sampler.noisesim", "simulator.state_sampler", "overlap.weighted_sum"):
+        n = rng.randint(17, 45)
+        plan.append((name, eps[name].gen(rng, n), rng.choice(["inline:shuffle", "threads:4", f"sched:{rng.randrange(10**6)}:0.05"]),
+                     rng.choice([7, 8, 11, 16, n - 1, n, n + 1, 64])))
     # malformed: operator / state count mismatch, weight count mismatch
     for fam in ("qulacs.vector", "qulacs.dm", "stim"):
         ep = eps[f"{fam}:paired"]
@@ -1012,6 +1378,20 @@ def k2_plan(ctx: Ctx, eps):
     b = eps["overlap.weighted_sum"].gen(rng, 4)
     b["weights"] = b["weights"][:3]
     plan.append(("overlap.weighted_sum", b, "inline:rev", 2))
+    # malformed: one operator of the batch acts on a qubit the states do not have (the worker raises inside one chunk)
+    for fam in ("qulacs.vector", "qulacs.dm", "qulacs.general_vector", "stim"):
+        for shape in ("paired", "ops-state"):
+            ep = eps[f"{fam}:{shape}"]
+            b = ep.gen(rng, 5)
+            b["ops"][rng.randrange(5)] = {"terms": [(3, [(b["q"] + 1, 3)]), (1, [(0, 3)])]}
+            plan.append((ep.name, b, rng.choice(["inline:fwd", "inline:shuffle", f"sched:{rng.randrange(10**6)}:0.5", "threads:2"]), rng.randint(2, 4)))
+    # malformed: one input of the batch is not a circuit / bound state (worker raises inside one chunk; the same
+    # exception must surface on the concurrent path, never a shortened result)
+    for name in ("simulator.state_sampler", "sampler.vector", "sampler.dm", "sampler.noisesim"):
+        b = eps[name].gen(rng, 5)
+        k = rng.randrange(5)
+        b["items"][k] = {"bad": gen_pstate(rng, b["q"], compiled=False), "shots": 4}
+        plan.append((name, b, rng.choice(["inline:fwd", "inline:rev", f"sched:{rng.randrange(10**6)}:0.5", "threads:2"]), rng.randint(2, 4)))
     return plan
 
 
@@ -1477,6 +1857,232 @@ def k5_preemptions(ctx: Ctx, eps, budget_s, exhaustive):
 
 
 # ---------------------------------------------------------------------------
+# K6 general samplers of sampler.py (batch entry points; three of them accept executor / concurrency)
+# ---------------------------------------------------------------------------
+GENERAL_SAMPLERS = ["general_vector", "general_vector_ideal", "general_dm", "general_dm_ideal", "general_noisesim"]
+
+
+def _general_sampler(name, noise, ex, c):
+    import quri_parts.qulacs.sampler as S
+
+    if name == "general_vector":
+        return S.create_qulacs_general_vector_sampler()
+    if name == "general_vector_ideal":
+        return S.create_qulacs_general_vector_ideal_sampler()
+    f = {"general_dm": S.create_qulacs_density_matrix_general_sampler,
+         "general_dm_ideal": S.create_qulacs_ideal_density_matrix_general_sampler,
+         "general_noisesim": S.create_qulacs_noisesimulator_general_sampler}[name]
+    if ex is None and c is None:
+        return f(_noise_model(noise))
+    return f(_noise_model(noise), ex, c)
+
+
+def gen_gs_batch(rng, name, n):
+    q = rng.randint(1, 3)
+    noise = rng.choice(NOISES) if name not in ("general_vector", "general_vector_ideal") else None
+    big = name != "general_noisesim"
+    items = []
+    for i in range(n):
+        kind = rng.choice(["circuit", "state", "pcircuit", "pstate"])
+        shots = 3 + i if not (big and rng.random() < 0.12) else 1500 + i
+        if kind == "circuit":
+            items.append({"kind": kind, "state": gen_state(rng, q, rng.randrange(2**q), vector_ok=False, noise=noise), "shots": shots})
+        elif kind == "state":
+            items.append({"kind": kind, "state": gen_state(rng, q, rng.randrange(2**q), noise=noise), "shots": shots})
+        else:
+            ps = gen_pstate(rng, q, compiled=rng.choice([False, False, True]) if kind == "pstate" else False,
+                            vector=False if kind == "pcircuit" else None, noise=noise)
+            items.append({"kind": kind, "pstate": ps, "params": gen_params(rng, ps["nparams"], 1)[0], "shots": shots})
+    return {"sampler": name, "q": q, "noise": noise, "items": items,
+            "form": rng.choice(["list", "tuple"] + (["star"] if n >= 2 else [])),
+            "args": rng.choice(["default", "executor"]) if noise is not None or name.startswith("general_dm") or name == "general_noisesim" else "default",
+            "concurrency": rng.choice([-1, 0, 1, 2, 3, 5])}
+
+
+def gs_item(it):
+    if it["kind"] == "circuit":
+        st = it["state"]
+        return (build_circuit(st["q"], st["gates"], st.get("compiled", False)), it["shots"])
+    if it["kind"] == "state":
+        return (build_state(it["state"]), it["shots"])
+    ps = build_pstate(it["pstate"])
+    par = [k * PI for k in it["params"]]
+    return ((ps.parametric_circuit if it["kind"] == "pcircuit" else ps), it["shots"], par)
+
+
+def gs_expected(it):
+    bits = state_bits(it["state"]) if "state" in it else pstate_bits(it["pstate"], it["params"])
+    return ((bits, (it["shots"], 0)),)
+
+
+def k6_general_samplers(ctx: Ctx, batches=None):
+    rng = ctx.rng
+    if batches is None:
+        batches = []
+        for name in GENERAL_SAMPLERS:
+            for n in [1, 2, 3, 5] + [rng.randint(2, 7) for _ in range(ctx.n(1, 8))]:
+                batches.append(gen_gs_batch(rng, name, n))
+    for b in batches:
+        name = b["sampler"]
+        ex = InlineExecutor(rng.choice(["fwd", "rev"])) if b.get("args") == "executor" else None
+        c = b.get("concurrency") if b.get("args") == "executor" else None
+
+        def attempt(thunk):
+            try:
+                return ("ok", canon_counts(thunk()))
+            except InfraError:
+                raise
+            except Exception as e:  # noqa: BLE001
+                return ("err", type(e).__name__)
+
+        def batch_call():
+            g = _general_sampler(name, b["noise"], ex, c)
+            items = [gs_item(it) for it in b["items"]]
+            if b["form"] == "star":
+                return g(*items)
+            return g(tuple(items) if b["form"] == "tuple" else items)
+
+        def single_calls():
+            g = _general_sampler(name, b["noise"], None, None)
+            return [g(*gs_item(it)) for it in b["items"]]
+
+        got, sing = attempt(batch_call), attempt(single_calls)
+        want = [gs_expected(it) for it in b["items"]]
+        n = len(b["items"])
+        ctx.case(("general-sampler", json.dumps(b, sort_keys=True, default=str)), nontrivial=n >= 2,
+                 sample={"general_sampler": name, "n": n, "form": b["form"], "result": str(got)[:160]})
+        ctx.traces += 1
+        ctx.count("general_sampler", f"{name}/{b['form']}/{b.get('args')}")
+        for it in b["items"]:
+            ctx.count("general_sampler_item", it["kind"])
+        if sing != ("ok", want):
+            ctx.disagree("general-sampler-single-vs-oracle", {"general_sampler_batch": b}, str(sing)[:300], str(want)[:300])
+        if got != sing:
+            key = f"general-sampler:{name}"
+            seen = ctx.extra.setdefault("witness_keys", {})
+            seen[key] = seen.get(key, 0) + 1
+            if seen[key] <= 3:
+                ctx.witness(key, f"create_qulacs_*_{name}_sampler: the batch call does not return, per input and in input order, "
+                                 "what the same sampler returns for that input alone",
+                            {"general_sampler_batch": b}, {"batch_call": str(got)[:400], "one_call_per_input": str(sing)[:400]})
+
+
+# ---------------------------------------------------------------------------
+# K7 histories: one estimator / sampler object, one executor and the same input objects over several calls
+# ---------------------------------------------------------------------------
+class SharedThreadPool:
+    """one real ThreadPoolExecutor for a whole history (fewer workers than chunks)"""
+
+    kind = "thread"
+
+    def __init__(self, workers=2):
+        from concurrent.futures import ThreadPoolExecutor
+
+        self.pool = ThreadPoolExecutor(workers)
+
+    def map(self, fn, *iterables):
+        return self.pool.map(fn, *iterables)
+
+    def close(self):
+        self.pool.shutdown(wait=True)
+
+
+def _scribble_on_public_copies(memo):
+    """what a caller may do between two calls: take the documented public copies of a compiled circuit
+    (`.qulacs_circuit`, `.param_mapper`) and change them.  -> number of objects scribbled on"""
+    k = 0
+    for key, obj in list(memo.items()):
+        if not isinstance(key, tuple):
+            continue
+        circ = None
+        if key[0] == "state":
+            circ = getattr(obj, "circuit", None)
+        elif key[0] == "circuit":
+            circ = obj
+        elif key[0] == "pstate":
+            circ = getattr(obj, "_circuit", None)  # the compiled object when the state hands it through
+            if not hasattr(circ, "qulacs_circuit"):
+                circ = getattr(obj, "parametric_circuit", None)
+        if circ is None or not hasattr(type(circ), "qulacs_circuit"):
+            continue
+        try:
+            qc = circ.qulacs_circuit
+            qc.add_X_gate(0)
+            if hasattr(qc, "get_parameter_count"):
+                for i in range(qc.get_parameter_count()):
+                    qc.set_parameter(i, 1.0 + i)
+            k += 1
+        except Exception:  # noqa: BLE001 — the accessor is only a convenience of this check
+            continue
+    return k
+
+
+def k7_plan(ctx: Ctx, eps, names=None):
+    rng = ctx.rng
+    cases = []
+    for name in (names or list(eps)):
+        ep = eps[name]
+        for rep in range(ctx.n(1, 4)):
+            variant = rng.randrange(ep.variants) if rep else (1 if ep.variants > 1 else 0)  # rep 0: compiled inputs
+            bA = ep.gen(rng, rng.randint(2, 6), variant)
+            nB = rng.randint(2, 6)
+            for _ in range(40):
+                bB = ep.gen(rng, nB, rng.randrange(ep.variants))
+                if bB.get("noise") == bA.get("noise"):  # the callable is built once, for one noise model
+                    break
+            else:
+                bB = bA
+            cases.append({"entry_point": name, "history": [bA, bB], "executor": rng.choice(["inline", "sched", "pool"]),
+                          "exseed": rng.randrange(10**6), "p": rng.choice([1.0, 0.5, 0.2]), "concurrency": rng.randint(2, 4)})
+    return cases
+
+
+def k7_histories(ctx: Ctx, eps, cases):
+    for case in cases:
+        name, (bA, bB), exkind, c = case["entry_point"], case["history"], case["executor"], case["concurrency"]
+        ep = eps[name]
+        ex = {"inline": lambda: InlineExecutor("shuffle", random.Random(case["exseed"])),
+              "sched": lambda: SchedExecutor(case["exseed"], case["p"]),
+              "pool": lambda: SharedThreadPool(2)}[exkind]()
+        memo, got, scribbled = {}, [], 0
+        try:
+            for step, b in enumerate((bA, bB, bA, bB)):
+                if step == 2:
+                    scribbled = _scribble_on_public_copies(memo)
+                try:
+                    got.append(("ok", ep.call(b, ex, c, memo)))
+                except InfraError:
+                    raise
+                except Exception as e:  # noqa: BLE001
+                    got.append(("err", type(e).__name__))
+        finally:
+            if exkind == "pool":
+                ex.close()
+        fresh = [run_ep(ep, b, "none", c)[0] for b in (bA, bB)]
+        want = [fresh[0], fresh[1], fresh[0], fresh[1]]
+        ctx.case(("history", name, json.dumps([bA, bB], sort_keys=True, default=str), exkind, c), nontrivial=True,
+                 sample={"history": name, "executor": exkind, "concurrency": c, "calls": 4, "scribbled_copies": scribbled})
+        ctx.traces += 1
+        ctx.count("history", f"{name}/{exkind}")
+        ctx.count("history_scribbled_copies", None, scribbled)
+        for i in range(2):
+            if fresh[i][0] == "ok" and fresh[i][1] != ep.expected((bA, bB)[i]):
+                ctx.disagree("sequential-vs-oracle", {"entry_point": name, "batch": (bA, bB)[i]}, str(fresh[i][1])[:300],
+                             str(ep.expected((bA, bB)[i]))[:300])
+        if got != want:
+            step = next(i for i in range(4) if got[i] != want[i])
+            key = f"history:{name}"
+            seen = ctx.extra.setdefault("witness_keys", {})
+            seen[key] = seen.get(key, 0) + 1
+            if seen[key] <= 3:
+                ctx.witness(key, f"{name}: call {step + 1} of a history on ONE estimator/sampler object, one executor and the same input "
+                                 "objects (batch A, batch B, [caller changes the public copies of the compiled circuits], A, B) "
+                                 "differs from a fresh sequential call",
+                            dict(case),
+                            {"call": step + 1, "got": str(got[step])[:400], "fresh_sequential": str(want[step])[:400]})
+
+
+# ---------------------------------------------------------------------------
 # census
 # ---------------------------------------------------------------------------
 class CallSpy:
@@ -1560,7 +2166,32 @@ def replay_findings(ctx: Ctx, eps):
                 continue
             break
         plan.append((name, b, "procs:2", 2))
+    # a compiled linear-mapped circuit without any parametric gate: no mappingproxy, but the param_mapper closure
+    plan.append(("qulacs.vector.parametric",
+                 {"q": 1, "op": bit_reader(1), "params": [[0, -1], [-1, 4], [4, 0]], "form": "list", "int0": False,
+                  "pstate": {"q": 1, "kind": "linear", "gates": [("S", 0), ("X", 0)], "nparams": 2, "compiled": True}}, "procs:2", 2))
     k2_cases(ctx, eps, plan)
+    # F-c: the general estimators lose the first element of a parameter batch given as a one-shot iterator
+    for fam in ("qulacs.general_vector.parametric", "qulacs.general_dm.parametric"):
+        ep = eps[fam]
+        b = {"q": 2, "op": bit_reader(2), "params": [[0, 0], [1, 0], [0, 1]], "noise": "bitflip0", "int0": False,
+             "pstate": {"q": 2, "kind": "unbound", "gates": [("PRX", 0, {"0": 1}), ("PRX", 1, {"1": 1})], "nparams": 2, "compiled": False}}
+        seen = {}
+        for exspec in ("none", "inline:fwd", "threads:2"):
+            lst = run_ep(ep, {**b, "form": "list"}, exspec, 2)[0]
+            one = run_ep(ep, {**b, "form": "iter"}, exspec, 2)[0]
+            ctx.traces += 1
+            ctx.case(("one-shot", fam, exspec), sample={"entry_point": fam, "executor": exspec, "list": str(lst)[:100], "iterator": str(one)[:100]})
+            if one != lst:
+                seen[exspec] = (lst, one)
+        if seen:
+            exspec, (lst, one) = next(iter(seen.items()))
+            dropped_first = all(l[0] == "ok" and o[0] == "ok" and o[1] == l[1][1:] for l, o in seen.values())
+            ctx.witness(K_ONESHOT if dropped_first else f"mismatch:{fam}",
+                        f"{fam}: GeneralQuantumEstimator(op, parametric state, <one-shot iterator of 3 parameter sets>) returns "
+                        f"{len(one[1]) if one[0] == 'ok' else one} result(s): next(iter(param)) consumed the first input",
+                        {"entry_point": fam, "batch": {**b, "form": "iter"}, "executor": exspec, "concurrency": 2},
+                        {"with_a_list": str(lst)[:300], "with_an_iterator": str(one)[:300], "executors_affected": sorted(seen)})
 
 
 # ---------------------------------------------------------------------------
@@ -1568,7 +2199,7 @@ def replay_findings(ctx: Ctx, eps):
 # ---------------------------------------------------------------------------
 def corpus_plan():
     d = os.path.join(VERIF, "corpus", "C11")
-    chunk, plan = [], []
+    chunk, plan, gs, hist = [], [], [], []
     if os.path.isdir(d):
         for f in sorted(os.listdir(d)):
             if not f.endswith(".json"):
@@ -1578,19 +2209,27 @@ def corpus_plan():
                     chunk.append((item["n"], item["c"]))
                 elif item.get("kind") == "entry":
                     plan.append((item["entry_point"], item["batch"], item["executor"], item["concurrency"], item.get("cold_cache")))
-    return chunk, plan
+                elif item.get("kind") == "general_sampler":
+                    gs.append(item["general_sampler_batch"])
+                elif item.get("kind") == "history":
+                    hist.append(item)
+    return chunk, plan, gs, hist
 
 
 def plan_from_replay(path):
     r = json.load(open(path))
-    plan, chunk = [], []
+    plan, chunk, gs, hist = [], [], [], []
     for w in r.get("witnesses", []) + [{"input": d.get("input")} for d in r.get("disagreements", [])]:
         inp = w.get("input") or {}
-        if "entry_point" in inp and "batch" in inp:
+        if "general_sampler_batch" in inp:
+            gs.append(inp["general_sampler_batch"])
+        elif "history" in inp and "entry_point" in inp:
+            hist.append(inp)
+        elif "entry_point" in inp and "batch" in inp:
             plan.append((inp["entry_point"], inp["batch"], inp.get("executor", "inline:fwd"), inp.get("concurrency", 2), inp.get("cold_cache")))
         elif "n" in inp:
             chunk.append((inp["n"], inp.get("concurrency", inp.get("c", 2))))
-    return chunk, plan
+    return chunk, plan, gs, hist
 
 
 def finish(ctx: Ctx) -> int:
@@ -1629,24 +2268,34 @@ def run(ctx: Ctx, replay=None) -> int:
         ctx.generated_entries = len(sites) + len(workers)
         ctx.extra["workers"] = {k: f"{v['shape']}{' nested' if v['nested'] else ''}" for k, v in workers.items()}
     eps = all_eps()
-    cchunk, cplan = corpus_plan()
+    cchunk, cplan, cgs, chist = corpus_plan()
     if replay:
-        rchunk, rplan = plan_from_replay(replay)
+        rchunk, rplan, rgs, rhist = plan_from_replay(replay)
         with ctx.timed("replay"):
             k1_chunking(ctx, extra=rchunk)
             k2_cases(ctx, eps, rplan)
+            if rgs:
+                k6_general_samplers(ctx, rgs)
+            k7_histories(ctx, eps, rhist)
         return finish(ctx)
     spy = CallSpy()
     with spy:
         with ctx.timed("findings_replay"):
             replay_findings(ctx, eps)
         with ctx.timed("k1_chunking"):
+            k1_defaults(ctx)
             k1_chunking(ctx, extra=cchunk)
         with ctx.timed("k2_entry_points"):
             scheduler_selftest(ctx)
             k2_cases(ctx, eps, cplan + k2_plan(ctx, eps))
         with ctx.timed("k3_homomorphism"):
             k3_homomorphism(ctx, eps)
+        with ctx.timed("k6_general_samplers"):
+            k6_general_samplers(ctx, cgs or None)
+            if cgs:
+                k6_general_samplers(ctx)
+        with ctx.timed("k7_histories"):
+            k7_histories(ctx, eps, chist + k7_plan(ctx, eps))
         with ctx.timed("k4_audit"):
             bad = k4_audit(ctx, eps)
         broken = bool(ctx.failed_obligations or ctx.disagreements)
